@@ -284,15 +284,19 @@ func (client *client) setError(err error) {
 			if client.version == packets.Version5 {
 				if code, ok := err.(*codes.Error); ok {
 					if client.IsConnected() {
-						// send Disconnect
-						client.write(&packets.Disconnect{
+						// send Disconnect, unless the write loop is not taking packets any more (peer not
+						// reading, or write loop gone): waiting here would keep client.close open for ever.
+						select {
+						case client.out <- &packets.Disconnect{
 							Version: packets.Version5,
 							Code:    code.Code,
 							Properties: &packets.Properties{
 								ReasonString: code.ReasonString,
 								User:         kvsToProperties(code.UserProperties),
 							},
-						})
+						}:
+						default:
+						}
 					}
 				}
 			}
